@@ -55,6 +55,35 @@ def chain_propagates(fx, callee_name, upto='asefile::parse::read_aseprite'):
     return problems
 
 
+def validator_scans_all(fx):
+    """validate_indexed_pixels looks every element of the slice up in the palette and returns Err when one is missing"""
+    vb = fx.body('asefile::palette::ColorPalette::validate_indexed_pixels')
+    if vb is None:
+        return False, 'validator missing'
+    cs = q.calls(vb, 'asefile::palette::ColorPalette::color')
+    if not cs:
+        return False, 'the validator no longer looks pixels up with ColorPalette::color (a dense 0..num_colors palette is assumed?)'
+    for c in cs:
+        at = q.arg_terms(c)
+        item = strip_casts(at[1])
+        src = q.unwrap_into_iter(item[1]) if item[0] == 'next' else None
+        whole = src is not None and is_param(src, 2) and is_param(at[0], 1)
+        L = vb.cfg.loop_of(c.bb)
+        exits_ok = L is not None and all(k in ('exhausted', 'err', 'unreachable') for _, _, k in q.loop_exit_kinds(vb, L))
+        prop = False
+        for u in q.calls(vb, 'std::option::Option::ok_or_else'):
+            a0 = q.arg_terms(u)[0]
+            if a0[0] == 'call' and a0[3] == (vb.name, c.bb):
+                fates = q.result_fates(vb, u.dest['l'])
+                prop = bool(fates) and all(f[0] == 'try' for f in fates)
+        if whole and exits_ok and prop:
+            cb = fx.body('asefile::palette::ColorPalette::color')
+            t = res(cb).ret() if cb is not None else None
+            if t is not None and t[0] == 'call' and t[1] == 'std::collections::HashMap::get' and is_param_path(t[2][0], 1, ['entries']) and is_param(t[2][1], 2):
+                return True, 'the validator looks up every element of the slice with entries.get(&index) and a missing key is an Err'
+    return False, 'the validator does not scan the whole slice with a propagated palette lookup'
+
+
 class Inv:
     def __init__(self, ctx):
         self.ctx = ctx
@@ -330,8 +359,9 @@ class Inv:
                             and at[1] == data and at[0] == pal:
                         ok = True
         others = [b2.name for b2 in fx.bodies for _ in q.stmt_aggs(b2, 'asefile::pixel::Pixels') if b2.name != body.name]
-        return ok and not others, ('Pixels::Indexed is built only after palette.validate_indexed_pixels(data)? on the same data and palette'
-                                   if ok and not others else 'index validation not established')
+        okv, whyv = validator_scans_all(fx)
+        return ok and not others and okv, ('Pixels::Indexed is built only after palette.validate_indexed_pixels(data)? on the same data and palette; ' + whyv
+                                           if ok and not others and okv else 'index validation not established (%s %s %s)' % (ok, others, whyv))
 
     # I10: parents.len() == layers.len() and parents[i] < i
     def I10(self):
